@@ -127,6 +127,7 @@ func specJSONSpace(c byte) bool { return c == ' ' || c == '\t' || c == '\n' || c
 
 //@ func Index
 //@   props C25
+//@   ensures result == strings.Index(s, substr)
 
 //@ func Join
 //@   props C25
@@ -246,3 +247,54 @@ func HexCount(s string, lo, hi int) int {
 //@     split 0, j, j+1; 0, j, j+3; j, j+1, j+3; j+1, j+2, j+3
 //@     decreases last - i
 //@   split 0, last, len(s); 0, j, len(b)
+
+// "Wrappers of the standard library agree with it": the result is the result
+// of the wrapped function on the same arguments, whatever they are (a fast path
+// that reimplements part of the library function must be proved equal to it).
+//@ func IndexAny
+//@   props C25
+//@   ensures result == strings.IndexAny(s, chars)
+
+//@ func LastIndex
+//@   props C25
+//@   ensures result == strings.LastIndex(s, substr)
+
+//@ func HasSuffix
+//@   props C25
+//@   ensures result == strings.HasSuffix(s, suffix)
+
+//@ func Replace
+//@   props C25
+//@   ensures result == strings.Replace(s, old, new, n)
+
+//@ func ReplaceAll
+//@   props C25
+//@   ensures result == strings.ReplaceAll(s, old, new)
+
+//@ func ToLower
+//@   props C25
+//@   ensures result == strings.ToLower(s)
+
+//@ func ToUpper
+//@   props C25
+//@   ensures result == strings.ToUpper(s)
+
+//@ func Trim
+//@   props C25
+//@   ensures result == strings.Trim(s, cutset)
+
+//@ func TrimLeft
+//@   props C25
+//@   ensures result == strings.TrimLeft(s, cutset)
+
+//@ func TrimRight
+//@   props C25
+//@   ensures result == strings.TrimRight(s, cutset)
+
+//@ func TrimPrefix
+//@   props C25
+//@   ensures result == strings.TrimPrefix(s, prefix)
+
+//@ func TrimSuffix
+//@   props C25
+//@   ensures result == strings.TrimSuffix(s, suffix)
